@@ -248,8 +248,10 @@ structure St where
   /-- ghost: proxy-virtual stake (staked through `stakeFarmThroughProxy` /
       `claimRewardsWithNewValue` without tokens moving), signed -/
   virt : Int
-  /-- ghost: outstanding unbond amounts -/
-  unbondOut : Nat
+  /-- ghost: outstanding unbond amounts (a signed ledger: `+ amount` when an unbond token is
+      minted, `− amount` when one is redeemed; `Lemmas/StakingSum.lean` shows it equals the sum
+      of the unbond tokens held by the accounts) -/
+  unbondOut : Int
   /-- ghost: base / boosted rewards paid out or compounded so far -/
   paidBase : Nat
   paidBoosted : Nat
@@ -589,7 +591,7 @@ def unstakeCore (s : St) (caller orig : Nat) (pay : Pay) (proxyAmt : Option Nat)
                   virt := match proxyAmt with
                     | some _ => s1.virt - (tok.amount : Int)
                     | none => s1.virt
-                  unbondOut := s1.unbondOut + unbondAmt
+                  unbondOut := s1.unbondOut + (unbondAmt : Int)
                   paidBase := s1.paidBase + base
                   paidBoosted := s1.paidBoosted + r.2.2 },
         ⟨s1.nonce + 1, unbondAmt, reward⟩)
@@ -614,7 +616,7 @@ def unbondFarm (s : St) (caller : Nat) (pay : Pay) : Option (St × Out) := do
   let unlock ← unbondOf s.md pay.1
   req (unlock ≤ s.epoch)
   let bal1 ← sub? s.bal pay.2
-  pure ({ s with hold := hold0, bal := bal1, unbondOut := s.unbondOut - pay.2 }, ⟨0, pay.2, 0⟩)
+  pure ({ s with hold := hold0, bal := bal1, unbondOut := s.unbondOut - (pay.2 : Int) }, ⟨0, pay.2, 0⟩)
 
 /-! ### merge, claimBoostedRewards (lib.rs, claim_only_boosted_staking_rewards.rs) -/
 
